@@ -1090,6 +1090,7 @@ def encode(mode, main_own, nthreads, history, result):
 def pack(ds):
     """transport format of Corr/C17.v: primitive 63-bit integers, the first is the number of digits, every
     further one carries 10 digits, least significant first"""
+    assert all(isinstance(d, int) and 0 <= d < 64 for d in ds), [d for d in ds if not (isinstance(d, int) and 0 <= d < 64)][:5]
     ints = [len(ds)]
     for k in range(0, len(ds), 10):
         v = 0
@@ -2231,7 +2232,7 @@ def _rebind_job(job):
                 f"while a thread was inside {'tensorly.tenalg' if m else 'tensorly.backend'}.use_dynamic_dispatch() (stopped after {positions[j][1]} "
                 f"{positions[j][0]}s) another thread's look-up of {missing[j][:3]} through the manager module raised AttributeError; the names are bound "
                 f"before and after the call")
-    lit = pack([9, m, wd, len(obs)] + obs)
+    lit = pack([9, m, wd, len(obs) // 64, len(obs) % 64] + obs)
     return [(lit, fail, [f"{'tenalg' if m else 'backend'}.use_dynamic_dispatch||lookup-all-names:{'missing' if any(obs) else 'found'}"])], None
 
 
